@@ -415,14 +415,31 @@ func (e *applierEnv) stepVariant(cs *cstate, o *ROp, variant int) (res stepResul
 		with.UnpublishedOperations = append(append([]*operation.AnchoredOperation(nil), cs.rm.UnpublishedOperations...), pending)
 		before, listBefore := digestJSON(pending), digestJSON(with.UnpublishedOperations)
 
-		func() {
-			defer func() { _ = recover() }()
+		var (
+			pout *protocol.ResolutionModel
+			perr error
+		)
 
-			_, _ = e.applier.Apply(op, &with)
+		func() {
+			defer func() {
+				if r := recover(); r != nil {
+					perr = fmt.Errorf("panic: %v", r)
+				}
+			}()
+
+			// (anchored without a canonical reference, as the pending entry is)
+			bare := *op
+			bare.CanonicalReference = ""
+			pout, perr = e.applier.Apply(&bare, &with)
 		}()
 
 		if digestJSON(pending) != before || digestJSON(with.UnpublishedOperations) != listBefore {
 			res.mutated = "an unpublished operation that the previous state holds (the same request, pending)"
+		}
+
+		// ... and being listed as pending earns an operation nothing: it is accepted or refused as it is otherwise
+		if (perr == nil && pout != nil) != (err == nil && out != nil) {
+			res.tight = fmt.Sprintf("the same operation, listed among the state's unpublished operations and anchored without a canonical reference, is judged differently: error %v / %v", err, perr)
 		}
 	}
 
